@@ -1409,15 +1409,21 @@ func (c *compiler) VisitBinaryExpr(e *ast.BinaryExpr) ast.VisitResult {
 		log10_base := c.cbb.NewCall(c.functions["log10"].irFunc, rhs)
 		c.latestReturn = c.cbb.NewFDiv(log10_num, log10_base)
 		c.latestReturnType = c.ddpfloattyp
-	case ast.BIN_LOGIC_AND:
-		c.latestReturn = c.cbb.NewAnd(lhs, rhs)
-		c.latestReturnType = c.ddpinttyp
-	case ast.BIN_LOGIC_OR:
-		c.latestReturn = c.cbb.NewOr(lhs, rhs)
-		c.latestReturnType = c.ddpinttyp
-	case ast.BIN_LOGIC_XOR:
-		c.latestReturn = c.cbb.NewXor(lhs, rhs)
-		c.latestReturnType = c.ddpinttyp
+	case ast.BIN_LOGIC_AND, ast.BIN_LOGIC_OR, ast.BIN_LOGIC_XOR:
+		// two bytes stay a byte, otherwise a byte operand is zero-extended to ddpint
+		c.latestReturnType = c.ddpbytetyp
+		if lhsTyp != c.ddpbytetyp || rhsTyp != c.ddpbytetyp {
+			lhs, rhs = c.floatOrByteAsInt(lhs, lhsTyp), c.floatOrByteAsInt(rhs, rhsTyp)
+			c.latestReturnType = c.ddpinttyp
+		}
+		switch e.Operator {
+		case ast.BIN_LOGIC_AND:
+			c.latestReturn = c.cbb.NewAnd(lhs, rhs)
+		case ast.BIN_LOGIC_OR:
+			c.latestReturn = c.cbb.NewOr(lhs, rhs)
+		case ast.BIN_LOGIC_XOR:
+			c.latestReturn = c.cbb.NewXor(lhs, rhs)
+		}
 	case ast.BIN_MOD:
 		if lhsTyp == c.ddpbytetyp && rhsTyp == c.ddpbytetyp {
 			c.latestReturn = c.cbb.NewURem(lhs, rhs)
